@@ -118,7 +118,10 @@ def conformance_cases() -> List[Tuple[str, str, Any]]:
                   ('CAST("x" AS VARCHAR)', "Integer", v)]
     for v in (None, Fraction(0), Fraction(3, 2), Fraction(-3, 2), Fraction(5, 2), Fraction(-5, 2), Fraction(1, 10),
               Fraction(-1, 1000), Fraction(7), Fraction(-999999999, 1000)):
-        cases += [(i_sql, "Number", v), ('CAST("x" AS DOUBLE)', "Number", v), ('CAST("x" AS BOOLEAN)', "Number", v)]
+        cases += [(i_sql, "Number", v), ('CAST("x" AS DOUBLE)', "Number", v), ('CAST("x" AS BOOLEAN)', "Number", v),
+                  ('CAST("x" AS BIGINT)', "Number", v), ('("x" > 0)', "Number", v)]
+    for v in (Fraction(1, 2), Fraction(-1, 2), Fraction(7, 2), Fraction(-7, 2), Fraction(149, 100), Fraction(-151, 100)):
+        cases.append(('CAST("x" AS BIGINT)', "Number", v))
     for v in (None, True, False):
         cases += [('CAST("x" AS BIGINT)', "Boolean", v), ('CAST("x" AS DOUBLE)', "Boolean", v),
                   ('CAST("x" AS VARCHAR)', "Boolean", v), ('CAST("x" AS BOOLEAN)', "Boolean", v)]
@@ -697,7 +700,8 @@ class Values:
                 out = []
                 for ind in vt.INDS:
                     for nn in self.nums(ind):
-                        pre = self.base_y() + [vt.wf(y, ind, nn)]
+                        # (weeks from year 1001 on: week 1 of the year 1000 starts in the 3-digit year 999)
+                        pre = self.base_y() + [vt.wf(y, ind, nn)] + ([Ge(y, YLO + 1)] if ind == "W" else [])
                         s = self.canon_cstr(ind, nn)
                         out.append(({"ind": ind}, self.explore(pre, lambda s=s: self.evaluate(sql, SV("str", s, xnull))), pre,
                                     self.wrap(doc_of(ind, nn))))
@@ -777,8 +781,16 @@ def interval_text_is(r: CStr, za: Any, zb: Any) -> Any:
     shape = And(*[is_digit(ch[i]) for i in digs], Eq(ch[4], 45), Eq(ch[7], 45), Eq(ch[10], 47), Eq(ch[15], 45), Eq(ch[18], 45))
     ya, ma, da = digits_value(ch[0:4]), digits_value(ch[5:7]), digits_value(ch[8:10])
     yb, mb, db = digits_value(ch[11:15]), digits_value(ch[16:18]), digits_value(ch[19:21])
-    return And(shape, cal.valid_date(ya, ma, da), cal.valid_date(yb, mb, db),
-               Eq(cal.days_from_civil(ya, ma, da), za), Eq(cal.days_from_civil(yb, mb, db), zb))
+
+    def is_day(y: Any, m: Any, d: Any, z: Any) -> Any:
+        # a date text the engine rendered from a day number z' reads back as z' (same provenance table as the model's
+        # CAST(VARCHAR AS DATE)); otherwise the fields must be a valid date with that day number
+        from vc.sqlvc import _DATEPROV
+        key = tuple(x.sx if is_sym(x) else x for x in (y, m, d))
+        if key in _DATEPROV:
+            return Eq(_DATEPROV[key], z)
+        return And(cal.valid_date(y, m, d), Eq(cal.days_from_civil(y, m, d), z))
+    return And(shape, is_day(ya, ma, da, za), is_day(yb, mb, db, zb))
 
 
 def int_text_is(s: CStr, x: Any) -> Any:
